@@ -13,7 +13,7 @@ from typing import Optional
 import z3
 
 from . import spec as S
-from .extract import FnSource, get_function, strip_doc, unparse
+from .extract import FnSource, get_function, strip_doc, unparse, stmt_pattern
 
 I, R, B = z3.IntSort(), z3.RealSort(), z3.BoolSort()
 I64_MIN, I64_MAX = -2 ** 63, 2 ** 63 - 1
@@ -149,8 +149,8 @@ def zite(c, a, b):
 class Engine:
     """Generates the obligations of one function."""
 
-    def __init__(self, qualname: str, contract: S.Contract, contracts: dict = None):
-        self.fs: FnSource = get_function(qualname)
+    def __init__(self, qualname: str, contract: S.Contract, contracts: dict = None, fs: FnSource = None):
+        self.fs: FnSource = fs if fs is not None else get_function(qualname)
         self.c = contract
         self.contracts = contracts if contracts is not None else S.CONTRACTS
         self.module = qualname.partition(":")[0]
@@ -159,7 +159,7 @@ class Engine:
         self.rec_funcs: dict = {}
         self.bound_depth = 0
         self.unfold_depth = 0
-        self.max_unfold = 1
+        self.max_unfold = 2
         self.dts: dict = {}
         self.loop_ord: list = []       # stack for loop ordinals
         self.loop_counter = [0]
@@ -171,6 +171,7 @@ class Engine:
         self.used_loops: set = set()
         self.cur_stmt = None
         self.notes: list = []
+        self.used_summaries: list = []
 
     # ------------------------------------------------------------------ utilities
     def fact(self, f, guard=None):
@@ -219,6 +220,8 @@ class Engine:
             return z3.Bool(prefix + name)
         if t.kind == "real":
             return z3.Real(prefix + name)
+        if t.kind == "obj":
+            return None
         if t.kind == "arr":
             term = z3.Const(prefix + name, asort(t.ndim, t.elem))
             shape = []
@@ -338,6 +341,10 @@ class Engine:
         f = z3.And(a == q * b + r, z3.If(b > 0, z3.And(0 <= r, r < b), z3.And(b < r, r <= 0)))
         if self.bound_depth == 0:
             self.fact(z3.Implies(b != 0, f), st.guard)
+            # sound helper instances for the non-linear case
+            self.fact(z3.Implies(z3.And(0 <= a, a < b), z3.And(q == 0, r == a)), st.guard)
+            self.fact(z3.Implies(z3.And(b > 0, a >= 0), z3.And(q >= 0, q <= a)), st.guard)
+            self.fact(z3.Implies(z3.And(b > 0, a >= b, a < 2 * b), z3.And(q == 1, r == a - b)), st.guard)
         else:
             raise OutOfSubset("symbolic divisor under a quantifier")
         return q, r
@@ -710,6 +717,18 @@ class Engine:
             if "at_iter" not in ctx:
                 raise ContractError("at_iter() outside an iteration contract")
             return self.ev(e.args[0], State(ctx["at_iter"], st.guard), True, ctx)
+        if name == "rev_seg":     # rev_seg(x, i, j): x with the segment [i..j] reversed (a ghost array value)
+            arr = self.ev(e.args[0], st, True, ctx)
+            i_ = to_num(self.ev(e.args[1], st, True, ctx))
+            j_ = to_num(self.ev(e.args[2], st, True, ctx))
+            if self.bound_depth:
+                raise ContractError("rev_seg under a quantifier")
+            new = fresh("revseg", arr.term.sort())
+            k = fresh("k")
+            self.fact(z3.ForAll([k], z3.Select(new, k) == z3.If(z3.And(i_ <= k, k <= j_),
+                                                                 z3.Select(arr.term, i_ + j_ - k),
+                                                                 z3.Select(arr.term, k))))
+            return SArr(new, arr.shape, arr.dt, arr.elem, None, arr.dtname)
         if name == "shape":
             arr = self.ev(e.args[0], st, True, ctx)
             return arr.shape[e.args[1].value]
@@ -751,6 +770,8 @@ class Engine:
         zargs = [a.term if isinstance(a, SArr) else to_num(a) if sf.ptypes[i] != "bool" else a
                  for i, a in enumerate(args)]
         app = fn(*zargs)
+        if sf.ast is None:
+            return app
         if self.bound_depth == 0 and self.unfold_depth < self.max_unfold:
             key = app.sexpr()
             if key not in self._unfolded:
@@ -811,6 +832,8 @@ class Engine:
         res = None
         if cc.returns is not None:
             res = self.mk_param(f"{name}_res!{next(_fresh)}", cc.returns)
+        for gname, gt in cc.ghost_results.items():
+            post_env[gname] = self.mk_param(f"{name}_{gname}!{next(_fresh)}", gt)
         penv = State(post_env, st.guard)
         for cl in cc.ensures:
             g = to_bool(self.ev(cl.ast, penv, True, {"old": env, "result": res}))
@@ -830,51 +853,43 @@ class Engine:
         v = self.ev(e, st, False, ctx or {})
         return v
 
-    def exec_block(self, stmts, st: State):
-        """-> dict(normal=State|None, brk=[...], cont=[...], ret=[(State, value)], rse=[State])"""
-        out = {"normal": st, "brk": [], "cont": [], "ret": [], "rse": []}
+    def exec_block(self, stmts, st):
+        """-> dict(normal=State|list|None, brk=[...], cont=[...], ret=[(State, value)], rse=[State]).
+        `st` may be one state or a list of (unmerged) path states."""
+        normals = st if isinstance(st, list) else [st]
+        out = {"normal": None, "brk": [], "cont": [], "ret": [], "rse": []}
         for s in stmts:
-            if out["normal"] is None:
+            if not normals:
                 break
-            self.cur_stmt = s
-            r = self.exec_stmt(s, out["normal"])
-            out["normal"] = r["normal"]
-            for k in ("brk", "cont", "ret", "rse"):
-                out[k].extend(r[k])
-            self.after_stmt(s, out["normal"])
+            nxt = []
+            for stx in normals:
+                self.cur_stmt = s
+                r = self.exec_stmt(s, stx)
+                rn = r["normal"]
+                rn = rn if isinstance(rn, list) else ([rn] if rn is not None else [])
+                for k in ("brk", "cont", "ret", "rse"):
+                    out[k].extend(r[k])
+                for x in rn:
+                    self.after_stmt(s, x)
+                nxt.extend(rn)
+            normals = nxt
+        out["normal"] = normals[0] if len(normals) == 1 else (normals if normals else None)
         return out
 
     def after_stmt(self, s, st):
-        """ghost code / refinement assertions attached 'after <pattern> #k'."""
-        if st is None or not (self.c.ghost_code or self.c.asserts or self.c.lemmas_at):
+        """ghost code / refinement assertions / lemma instances attached 'after <pattern> #k'."""
+        key = self.fs.after_key.get(id(s))
+        if st is None or key is None:
             return
-        pat = self.stmt_pattern(s)
-        if pat is None:
-            return
-        n = self.stmt_counts.get(pat, 0)
-        self.stmt_counts[pat] = n + 1
-        key = f"after {pat} #{n}"
         for gs in self.c.ghost_code.get(key, []):
             self.exec_ghost(gs, st)
+        for lm in self.lemma_instances(self.c.lemmas_at.get(key, []), st, self.spec_ctx()):
+            self.fact(lm, st.guard)
         for cl in self.c.asserts.get(key, []):
             g = to_bool(self.ev(cl.ast, st, True, self.spec_ctx()))
             self.emit("assert", f"{key}:{cl.label}", g, st.guard, cl.props)
             self.fact(g, st.guard)
         self._seen_keys.add(key)
-
-    def stmt_pattern(self, s):
-        if isinstance(s, (ast.Assign, ast.AnnAssign, ast.AugAssign)):
-            t = s.targets[0] if isinstance(s, ast.Assign) else s.target
-            return "assign " + unparse(t)
-        if isinstance(s, ast.Expr) and isinstance(s.value, ast.Call):
-            return "call " + unparse(s.value.func)
-        if isinstance(s, ast.While):
-            return "while"
-        if isinstance(s, ast.For):
-            return "for"
-        if isinstance(s, ast.If):
-            return "if"
-        return None
 
     def exec_ghost(self, text, st):
         node = ast.parse(text.strip()).body[0]
@@ -902,6 +917,16 @@ class Engine:
     def exec_stmt(self, s, st: State):
         none = {"normal": st, "brk": [], "cont": [], "ret": [], "rse": []}
         self._pending_i64 = []
+        key = self.fs.after_key.get(id(s))
+        if key is not None and key[6:] in self.c.summaries:
+            sm = self.c.summaries[key[6:]]
+            self._seen_keys.add(key[6:])
+            for n, t in sm.binds.items():
+                st.vars[n] = self.mk_param(f"{n}!{next(_fresh)}", t)
+            for a in sm.assume:
+                self.fact(to_bool(self.ev(ast.parse(a, mode="eval").body, st, True, self.spec_ctx())), st.guard)
+            self.used_summaries.append((key[6:], sm))
+            return none
         m = getattr(self, "st_" + type(s).__name__, None)
         if m is None:
             raise OutOfSubset(f"statement {type(s).__name__}")
@@ -1078,8 +1103,7 @@ class Engine:
         return None
 
     def st_If(self, s, st):
-        k = self.if_count
-        self.if_count += 1
+        k = self.fs.if_ord[id(s)]
         c = to_bool(self.ev_code(s.test, st))
         self.flush_guarded(st, s)
         key = f"if#{k}"
@@ -1095,14 +1119,24 @@ class Engine:
         out = self.out(None)
         for kk in ("brk", "cont", "ret", "rse"):
             out[kk] = r1[kk] + r2[kk]
-        n1, n2 = r1["normal"], r2["normal"]
-        if n1 is None:
-            out["normal"] = n2
-        elif n2 is None:
-            out["normal"] = n1
+        flat = []
+        for nn in (r1["normal"], r2["normal"]):
+            if isinstance(nn, list):
+                flat.extend(nn)
+            elif nn is not None:
+                flat.append(nn)
+        if key in self.c.split:
+            self._seen_keys.add(key)
+            out["normal"] = flat if flat else None
         else:
-            out["normal"] = self.merge([n1, n2])
+            out["normal"] = self.merge(flat)
         return out
+
+    @staticmethod
+    def flat(n):
+        if n is None:
+            return []
+        return list(n) if isinstance(n, list) else [n]
 
     def merge(self, states):
         states = [x for x in states if x is not None]
@@ -1121,8 +1155,8 @@ class Engine:
         return acc
 
     # ---- loops
-    def loop_spec(self) -> tuple:
-        ordn = ".".join(str(x) for x in self.loop_ord)
+    def loop_spec(self, s) -> tuple:
+        ordn = self.fs.loop_ord[id(s)]
         lp = self.c.loops.get(ordn)
         if lp is None:
             lp = S.Loop()
@@ -1150,6 +1184,21 @@ class Engine:
                     and isinstance(node.func.value, ast.Name):
                 arrays.add(node.func.value.id)
         return names, arrays
+
+    def ghost_assigned(self, lp, loop_stmt):
+        out = set()
+        texts = list(lp.ghost_end)
+        for sub in ast.walk(loop_stmt):
+            key = self.fs.after_key.get(id(sub))
+            if key:
+                texts.extend(self.c.ghost_code.get(key, []))
+        for t in texts:
+            node = ast.parse(t.strip()).body[0]
+            tg = node.targets[0]
+            while isinstance(tg, ast.Subscript):
+                tg = tg.value
+            out.add(tg.id)
+        return out
 
     def callee_mods(self, stmts):
         mods = set()
@@ -1192,17 +1241,10 @@ class Engine:
     def st_For(self, s, st):
         if s.orelse:
             raise OutOfSubset("for-else")
-        self.loop_ord.append(self.loop_counter[-1])
-        self.loop_counter[-1] += 1
-        self.loop_counter.append(0)
-        try:
-            return self._for(s, st)
-        finally:
-            self.loop_counter.pop()
-            self.loop_ord.pop()
+        return self._for(s, st)
 
     def _for(self, s, st):
-        ordn, lp = self.loop_spec()
+        ordn, lp = self.loop_spec(s)
         it = s.iter
         tgt = s.target
         cvar = None      # name bound to the counter
@@ -1259,6 +1301,7 @@ class Engine:
         # --- havoc
         names, arrays = self.assigned(s.body)
         arrays |= self.callee_mods(s.body)
+        names |= self.ghost_assigned(lp, s)
         names.discard(cvar)
         hv = self.havoc(st, names | ({evar} if evar else set()), arrays, lp)
         k = fresh(cvar)
@@ -1267,6 +1310,8 @@ class Engine:
         self.loop_entries.append(at_loop)
         for cl in lp.inv:
             self.fact(to_bool(self.ev(cl.ast, hv, True, ictx)), st.guard)
+        for a in lp.assume:
+            self.fact(to_bool(self.ev(ast.parse(a, mode="eval").body, hv, True, ictx)), st.guard)
         # --- one iteration
         body = hv.copy(zand(st.guard, k < hi))
         if evar:
@@ -1291,7 +1336,7 @@ class Engine:
             body.vars[evar] = v
         iter_start = dict(body.vars)
         r = self.exec_block(s.body, body)
-        ends = [x for x in [r["normal"]] + r["cont"] if x is not None]
+        ends = [x for x in self.flat(r["normal"]) + r["cont"] if x is not None]
         end = self.merge(ends)
         if end is not None:
             for gs in lp.ghost_end:
@@ -1317,17 +1362,10 @@ class Engine:
     def st_While(self, s, st):
         if s.orelse:
             raise OutOfSubset("while-else")
-        self.loop_ord.append(self.loop_counter[-1])
-        self.loop_counter[-1] += 1
-        self.loop_counter.append(0)
-        try:
-            return self._while(s, st)
-        finally:
-            self.loop_counter.pop()
-            self.loop_ord.pop()
+        return self._while(s, st)
 
     def _while(self, s, st):
-        ordn, lp = self.loop_spec()
+        ordn, lp = self.loop_spec(s)
         for gs in lp.ghost_pre:
             self.exec_ghost(gs, st)
         at_loop = dict(st.vars)
@@ -1336,11 +1374,14 @@ class Engine:
             g = to_bool(self.ev(cl.ast, st, True, ictx))
             self.emit("inv-init", f"loop{ordn}:{cl.label}", g, st.guard, cl.props)
         names, arrays = self.assigned(s.body)
+        names |= self.ghost_assigned(lp, s)
         arrays |= self.callee_mods(s.body) | self.callee_mods([ast.Expr(value=s.test)])
         hv = self.havoc(st, names, arrays, lp)
         self.loop_entries.append(at_loop)
         for cl in lp.inv:
             self.fact(to_bool(self.ev(cl.ast, hv, True, ictx)), st.guard)
+        for a in lp.assume:
+            self.fact(to_bool(self.ev(ast.parse(a, mode="eval").body, hv, True, ictx)), st.guard)
         var0 = None
         if lp.variant:
             var0 = to_num(self.ev(ast.parse(lp.variant, mode="eval").body, hv, True, ictx))
@@ -1351,7 +1392,7 @@ class Engine:
         self.flush_guarded(head, s)
         body = head.copy(zand(st.guard, c))
         r = self.exec_block(s.body, body)
-        ends = [x for x in [r["normal"]] + r["cont"] if x is not None]
+        ends = [x for x in self.flat(r["normal"]) + r["cont"] if x is not None]
         end = self.merge(ends)
         if end is not None:
             for gs in lp.ghost_end:
@@ -1386,6 +1427,8 @@ class Engine:
         env = dict(zip(lm.params, args))
         stx = State(env, z3.BoolVal(True))
         hyps = [to_bool(self.ev(ast.parse(h, mode="eval").body, stx, True, {})) for h in lm.hyps]
+        if lm.induct is not None:   # induction establishes the lemma only from the base value upwards
+            hyps.append(to_num(env[lm.induct]) >= to_num(self.ev(ast.parse(lm.base, mode="eval").body, stx, True, {})))
         concl = to_bool(self.ev(ast.parse(lm.concl, mode="eval").body, stx, True, {}))
         return z3.Implies(zand(*hyps), concl)
 
@@ -1416,10 +1459,13 @@ class Engine:
             self.fact(to_bool(self.ev(cl.ast, st, True, {"old": self.entry})))
         # vacuity: the pre-condition must not be contradictory
         self.emit("cover", "pre", z3.BoolVal(True), None, frozenset(), expect="sat")
+        for lm in self.lemma_instances(self.c.lemmas_at.get("entry", []), st, {"old": self.entry}):
+            self.fact(lm)
+        self._seen_keys.update(("entry", "post"))
         r = self.exec_block(strip_doc(fn.body), st)
         rets = list(r["ret"])
-        if r["normal"] is not None:
-            rets.append((r["normal"], None))
+        for nn in self.flat(r["normal"]):
+            rets.append((nn, None))
         for n, (rs, rv) in enumerate(rets):
             ctx = {"old": self.entry, "result": rv}
             extra = self.lemma_instances(self.c.lemmas_at.get("post", []), rs, ctx)
@@ -1438,8 +1484,9 @@ class Engine:
         for k in self.c.loops:
             if k not in self.used_loops:
                 raise ContractError(f"{self.fs.qualname}: contract names loop {k} that does not exist")
-        for k in list(self.c.asserts) + list(self.c.ghost_code) + list(self.c.branch_iff):
-            if k not in self._seen_keys and k != "post":
+        for k in list(self.c.asserts) + list(self.c.ghost_code) + list(self.c.branch_iff) + list(self.c.lemmas_at) \
+                + list(self.c.summaries) + list(self.c.split):
+            if k not in self._seen_keys:
                 raise ContractError(f"{self.fs.qualname}: contract attaches to {k!r} which does not exist")
         return self.obls
 
@@ -1452,3 +1499,82 @@ def _guard_is_true(self):
 
 
 State.guard_is_true = _guard_is_true
+
+
+class LemmaEngine(Engine):
+    """Proves declared lemmas (optionally by induction) from the recursive spec definitions.
+    A proved lemma is only ever *applied explicitly* (Engine.lemma_instances)."""
+
+    def __init__(self, consts=None):
+        fs = FnSource("lemmas", "", None, "", "")
+        fs.consts = dict(consts or {})
+        super().__init__("lemmas", S.Contract("lemmas", {}), fs=fs)
+        self._pending_i64 = []
+        self._unfolded = set()
+        self._seen_keys = set()
+        self.assumed = []
+
+    def mk(self, name, ty):
+        if ty == "int":
+            return z3.Int("L_" + name)
+        if ty == "bool":
+            return z3.Bool("L_" + name)
+        nd = 1 if ty.startswith("arr1") else 2
+        elem = "real" if ty.endswith("r") else "int"
+        return SArr(z3.Const("L_" + name, asort(nd, elem)), tuple(z3.Int(f"L_{name}_n{d}") for d in range(nd)),
+                    None, elem)
+
+    def prove(self, lm: S.Lemma, props):
+        """-> obligations lemma:<name>:base / :step (or :direct)."""
+        env = {p: self.mk(p, t) for p, t in lm.params.items()}
+        st = State(env, z3.BoolVal(True))
+        P = lambda text, stx: to_bool(self.ev(ast.parse(text, mode="eval").body, stx, True, {}))
+        def uses(stx):
+            fs_ = []
+            for u in lm.uses:
+                call = ast.parse(u.strip(), mode="eval").body
+                other = S.LEMMAS[call.func.id]
+                args = [self.ev(a, stx, True, {}) for a in call.args]
+                fs_.append(self.lemma_formula(other, args))
+            return fs_
+        self.fs.qualname = "lemma"
+        if lm.induct is None:
+            n0 = len(self.facts)
+            hy = [P(h, st) for h in lm.hyps] + uses(st)
+            goal = P(lm.concl, st)
+            self.emit("lemma", f"{lm.name}:direct", z3.Implies(zand(*hy), goal), None, props)
+            return
+        v = lm.induct
+        basev = to_num(self.ev(ast.parse(lm.base, mode="eval").body, st, True, {}))
+        # base: v == base
+        sb = State(dict(env), z3.BoolVal(True))
+        sb.vars[v] = basev
+        hy = [P(h, sb) for h in lm.hyps] + uses(sb)
+        self.emit("lemma", f"{lm.name}:base", z3.Implies(zand(*hy), P(lm.concl, sb)), None, props)
+        # step: v > base, IH at v-1
+        sp = State(dict(env), z3.BoolVal(True))
+        sp.vars[v] = env[v] - 1
+        ih = z3.Implies(zand(*[P(h, sp) for h in lm.hyps]), P(lm.concl, sp))
+        hy = [env[v] > basev, ih] + [P(h, st) for h in lm.hyps] + uses(st) + uses(sp)
+        self.emit("lemma", f"{lm.name}:step", z3.Implies(zand(*hy), P(lm.concl, st)), None, props)
+
+
+def prove_lemmas(names, props, consts=None):
+    eng = LemmaEngine(consts)
+    done = set()
+    def rec(n):
+        if n in done:
+            return
+        done.add(n)
+        lm = S.LEMMAS[n]
+        if lm.assumed:
+            eng.assumed.append(f"axiom {lm.name}: {lm.note}")
+            return
+        for u in lm.uses:
+            rec(ast.parse(u.strip(), mode="eval").body.func.id)
+        eng.prove(lm, frozenset(props.split()) if isinstance(props, str) else props)
+    for n in names:
+        rec(n)
+    for o in eng.obls:
+        o.eng = eng
+    return eng, eng.obls
